@@ -90,6 +90,8 @@ const GRAMMARS: &[(&str, bool, &str)] = &[
     ("X11unknownrule", false, "%start S\n%%\nS: 'A' T | 'B' ;\n"),
     // 200 tokens: the builder's cache record (which lists every token) is several KiB long; text from `gtext`
     ("G12big", true, ""),
+    // the tokens of G1 with other rules: the builder's cache record (settings + token map) is G1's
+    ("G13sametokens", true, "%start S\n%%\nS: S 'A' | 'B' ;\n"),
 ];
 const LEXERS: &[(&str, bool, &str)] = &[
     ("missing", false, ""),
@@ -125,7 +127,7 @@ fn ltext(l: usize) -> String {
     }
     LEXERS[l].2.to_string()
 }
-const VALID_G: &[usize] = &[1, 2, 3, 4, 5];
+const VALID_G: &[usize] = &[1, 2, 3, 4, 5, 13, 1, 13];
 const INVALID_G: &[usize] = &[0, 6, 7, 8, 9, 10, 11];
 const VALID_L: &[usize] = &[1, 2, 3, 4];
 const INVALID_L: &[usize] = &[0, 5, 6, 7];
@@ -1070,6 +1072,12 @@ fn corpus() -> Vec<((usize, usize, Vec<usize>), Vec<(Op, u64)>)> {
         // unchanged rebuilds of a grammar whose cache record is long (200 tokens), then a real change
         ((12, 8, d.clone()), vec![b.clone(), b.clone(), b.clone(), (Op::EditL(1), 1), b.clone(), (Op::EditL(8), 1), b.clone(), b.clone()]),
         ((12, 8, nested.clone()), vec![b.clone(), b.clone(), b.clone()]),
+        // an edit whose timestamp lies in the future of the machine's clock (the model clock starts in 2020;
+        // + 400 000 000 s is 2033), then unchanged rebuilds at that time
+        ((1, 1, d.clone()), vec![b.clone(), (Op::EditG(13), 400_000_000), b.clone(), b.clone(), (Op::EditG(1), 5), b.clone()]),
+        ((1, 1, nested.clone()), vec![b.clone(), (Op::EditL(2), 400_000_000), (Op::EditG(13), 1), b.clone(), b.clone()]),
+        // the same edit (same tokens, other rules) at ordinary and at equal timestamps
+        ((1, 1, d.clone()), vec![b.clone(), (Op::EditG(13), 1), b.clone(), (Op::EditG(1), 0), b.clone(), b.clone()]),
         // unchanged rebuilds, equal timestamps
         ((2, 2, d.clone()), vec![b.clone(), b.clone(), (Op::EditG(2), 0), (Op::Build, 0), (Op::Build, 0), b.clone()]),
     ]
